@@ -32,11 +32,13 @@ def gGameState (engine : Engine) (own : Nat) (extraRules : G Rules) : G (Config 
     let base := match xi.transport with
       | .sourceSplit id _ => id
       | .goldSplit id _ => id
+      | .sourceSplitBz id _ _ _ => id
       | .single => 7
     -- the three replies carry three different ids
     let rebase (x : Exchange) (k : Nat) : Exchange := match x.transport with
       | .sourceSplit _ sizes => { x with transport := .sourceSplit ((base + k) % 2 ^ 31) sizes }
       | .goldSplit _ sizes => { x with transport := .goldSplit ((base + k) % 2 ^ 31) sizes }
+      | .sourceSplitBz _ _ _ _ => x
       | .single => x
     pure ({ cfg0 with info := xi, players := rebase xp 1, rules := rebase xr 2 }, st)
 
